@@ -1853,3 +1853,155 @@ func specShiftOK(in Instruction) bool { return in.Op >= 0 && in.A >= 0 && in.B >
 //@   ensures[C13] result != nil ==> wfailed(w) && result == werr(w)
 //@   ensures[C13] result == nil ==> !wfailed(w)
 //@   ensures[C13] wonly(w)
+
+// The register accessors (registers.go) index the register file with the
+// frame pointer plus the register operand. Under the register-file invariant
+// and for an operand that names a register of the running function (direct:
+// 1..NumReg[t]; indirect, written negative: a general register 1..NumReg[3];
+// constant operands of the k forms index the constant table) every access is
+// inside the register file. These units prove the bodies; callers keep using
+// the accessors' base contracts.
+func specDirectReg(vm *VM, r int8, t int) bool { return r > 0 && int(r) <= int(vm.fn.NumReg[t]) }
+func specIndirectReg(vm *VM, r int8) bool     { return r > -128 && r <= 0 && int(-r) <= int(vm.fn.NumReg[3]) }
+
+//@ func (*VM).int@regs
+//@   props C05
+//@   panics allowed
+//@   opt puremethods IsNil Elem Kind Int Uint Bool Float String Interface
+//@   requires vm != nil && specRegsOK(vm, vm.fn)
+//@   requires specDirectReg(vm, r, 0) || specIndirectReg(vm, r)
+
+//@ func (*VM).setInt@regs
+//@   props C05
+//@   panics allowed
+//@   opt puremethods IsNil Elem Kind Int Uint Bool Float String Interface
+//@   requires vm != nil && specRegsOK(vm, vm.fn)
+//@   requires specDirectReg(vm, r, 0) || specIndirectReg(vm, r)
+
+//@ func (*VM).bool@regs
+//@   props C05
+//@   panics allowed
+//@   opt puremethods IsNil Elem Kind Int Uint Bool Float String Interface
+//@   requires vm != nil && specRegsOK(vm, vm.fn)
+//@   requires specDirectReg(vm, r, 0) || specIndirectReg(vm, r)
+
+//@ func (*VM).setBool@regs
+//@   props C05
+//@   panics allowed
+//@   opt puremethods IsNil Elem Kind Int Uint Bool Float String Interface
+//@   requires vm != nil && specRegsOK(vm, vm.fn)
+//@   requires specDirectReg(vm, r, 0) || specIndirectReg(vm, r)
+
+//@ func (*VM).float@regs
+//@   props C05
+//@   panics allowed
+//@   opt puremethods IsNil Elem Kind Int Uint Bool Float String Interface
+//@   requires vm != nil && specRegsOK(vm, vm.fn)
+//@   requires specDirectReg(vm, r, 1) || specIndirectReg(vm, r)
+
+//@ func (*VM).setFloat@regs
+//@   props C05
+//@   panics allowed
+//@   opt puremethods IsNil Elem Kind Int Uint Bool Float String Interface
+//@   requires vm != nil && specRegsOK(vm, vm.fn)
+//@   requires specDirectReg(vm, r, 1) || specIndirectReg(vm, r)
+
+//@ func (*VM).string@regs
+//@   props C05
+//@   panics allowed
+//@   opt puremethods IsNil Elem Kind Int Uint Bool Float String Interface
+//@   requires vm != nil && specRegsOK(vm, vm.fn)
+//@   requires specDirectReg(vm, r, 2) || specIndirectReg(vm, r)
+
+//@ func (*VM).setString@regs
+//@   props C05
+//@   panics allowed
+//@   opt puremethods IsNil Elem Kind Int Uint Bool Float String Interface
+//@   requires vm != nil && specRegsOK(vm, vm.fn)
+//@   requires specDirectReg(vm, r, 2) || specIndirectReg(vm, r)
+
+//@ func (*VM).general@regs
+//@   props C05
+//@   panics allowed
+//@   opt puremethods IsNil Elem Kind Int Uint Bool Float String Interface
+//@   requires vm != nil && specRegsOK(vm, vm.fn)
+//@   requires specDirectReg(vm, r, 3) || specIndirectReg(vm, r)
+
+//@ func (*VM).setGeneral@regs
+//@   props C05
+//@   panics allowed
+//@   opt puremethods IsNil Elem Kind Int Uint Bool Float String Interface
+//@   requires vm != nil && specRegsOK(vm, vm.fn)
+//@   requires specDirectReg(vm, r, 3) || specIndirectReg(vm, r)
+
+//@ func (*VM).intk@regs
+//@   props C05
+//@   panics allowed
+//@   opt puremethods IsNil Elem Kind Int Uint Bool Float String Interface
+//@   requires vm != nil && specRegsOK(vm, vm.fn)
+//@   requires k || specDirectReg(vm, r, 0) || specIndirectReg(vm, r)
+
+//@ func (*VM).boolk@regs
+//@   props C05
+//@   panics allowed
+//@   opt puremethods IsNil Elem Kind Int Uint Bool Float String Interface
+//@   requires vm != nil && specRegsOK(vm, vm.fn)
+//@   requires k || specDirectReg(vm, r, 0) || specIndirectReg(vm, r)
+
+//@ func (*VM).floatk@regs
+//@   props C05
+//@   panics allowed
+//@   opt puremethods IsNil Elem Kind Int Uint Bool Float String Interface
+//@   requires vm != nil && specRegsOK(vm, vm.fn)
+//@   requires k || specDirectReg(vm, r, 1) || specIndirectReg(vm, r)
+
+//@ func (*VM).stringk@regs
+//@   props C05
+//@   panics allowed
+//@   opt puremethods IsNil Elem Kind Int Uint Bool Float String Interface
+//@   requires vm != nil && specRegsOK(vm, vm.fn)
+//@   requires k ==> int(uint8(r)) < len(vm.fn.Values.String)
+//@   requires k || specDirectReg(vm, r, 2) || specIndirectReg(vm, r)
+
+//@ func (*VM).generalk@regs
+//@   props C05
+//@   panics allowed
+//@   opt puremethods IsNil Elem Kind Int Uint Bool Float String Interface
+//@   requires vm != nil && specRegsOK(vm, vm.fn)
+//@   requires k || specDirectReg(vm, r, 3) || specIndirectReg(vm, r)
+//@   requires k ==> int(uint8(r)) < len(vm.fn.Values.General)
+
+//@ func (*VM).intIndirect@regs
+//@   props C05
+//@   panics allowed
+//@   opt puremethods IsNil Elem Kind Int Uint Bool Float String Interface
+//@   requires vm != nil && specRegsOK(vm, vm.fn)
+//@   requires r >= 0 && int(r) <= int(vm.fn.NumReg[3])
+
+//@ func (*VM).boolIndirect@regs
+//@   props C05
+//@   panics allowed
+//@   opt puremethods IsNil Elem Kind Int Uint Bool Float String Interface
+//@   requires vm != nil && specRegsOK(vm, vm.fn)
+//@   requires r >= 0 && int(r) <= int(vm.fn.NumReg[3])
+
+//@ func (*VM).floatIndirect@regs
+//@   props C05
+//@   panics allowed
+//@   opt puremethods IsNil Elem Kind Int Uint Bool Float String Interface
+//@   requires vm != nil && specRegsOK(vm, vm.fn)
+//@   requires r >= 0 && int(r) <= int(vm.fn.NumReg[3])
+
+//@ func (*VM).stringIndirect@regs
+//@   props C05
+//@   panics allowed
+//@   opt puremethods IsNil Elem Kind Int Uint Bool Float String Interface
+//@   requires vm != nil && specRegsOK(vm, vm.fn)
+//@   requires r >= 0 && int(r) <= int(vm.fn.NumReg[3])
+
+//@ func (*VM).generalIndirect@regs
+//@   props C05
+//@   panics allowed
+//@   opt puremethods IsNil Elem Kind Int Uint Bool Float String Interface
+//@   requires vm != nil && specRegsOK(vm, vm.fn)
+//@   requires r >= 0 && int(r) <= int(vm.fn.NumReg[3])
